@@ -1,7 +1,7 @@
 (* Property C06 -- reloads are precise and every one is reported exactly once.  Statements only. *)
 From Coq Require Import List String NArith ZArith Bool.
 From AM Require Import Rust.Ast Rust.Script Ref.RwCell Gen.Entry Ref.Load Ref.Sys Proofs.SysGrows Proofs.SysFrame
-  Proofs.SysStatic Proofs.SysReload Proofs.Dfs Proofs.RwPin Proofs.RwStep Tie.Entry Tie.CallGraph.
+  Proofs.SysStatic Proofs.SysReload Proofs.Dfs Proofs.RwPin Proofs.RwStep Tie.Entry Tie.CallGraph Gen.Deps Tie.Graph.
 Import ListNotations.
 
 (* loading never touches the dependency graph nor the set of changed entries: only the reloader
@@ -53,3 +53,9 @@ Theorem C06_value_read_after_a_reported_reload_is_as_new :
       holds_read_along t seg cr ->
       mem (fst (run2 seg cr)) = mem (fst cr) /\ snd (run2 seg cr) = snd cr).
 Proof. exact (conj write_accepted guard_pins). Qed.
+
+(* precision of the graph: the printed DepsGraph::insert replaces an asset's dependencies and
+   unlinks exactly the reverse edges of the dependencies it lost (old minus new), so an entry the
+   asset no longer records cannot reach it any more *)
+Theorem C06_code_forgets_dropped_dependencies : insert_wf DepsGraph_insert = true.
+Proof. exact graph_insert_as_modelled. Qed.
